@@ -33,10 +33,12 @@ type payPerInterval struct {
 }
 
 func (b *payPerInterval) intervalCredit(lastSeen time.Time) *big.Int {
-	if b.now == nil {
-		b.now = time.Now
+	now := b.now
+	if now == nil {
+		// Not stored back: concurrent updates share this manager.
+		now = time.Now
 	}
-	delta := big.NewInt(int64(b.now().Sub(lastSeen)))
+	delta := big.NewInt(int64(now().Sub(lastSeen)))
 	interval := big.NewInt(int64(b.Interval))
 	credit := new(big.Int).Mul(delta, &b.CreditPerInterval)
 	return credit.Div(credit, interval)
